@@ -74,7 +74,7 @@ func main() {
 		if err != nil {
 			return err
 		}
-		if info.IsDir() || !strings.HasSuffix(p, ".go") {
+		if info.IsDir() || !(strings.HasSuffix(p, ".go") || strings.HasSuffix(p, ".s")) {
 			return nil
 		}
 		rel, _ := filepath.Rel(engineRoot, p)
